@@ -100,6 +100,39 @@ fn stream_bytes(stream: &Stream) -> Result<Vec<u8>, ErrInfo> {
     }
 }
 
+/// A user sink with the required methods only that fails from its `fail_at`-th operation on.
+struct FailSink {
+    ops: usize,
+    fail_at: usize,
+}
+
+impl FailSink {
+    fn gate(&mut self) -> Result<(), std::io::Error> {
+        self.ops += 1;
+        if self.ops > self.fail_at {
+            Err(std::io::Error::new(std::io::ErrorKind::Other, "simulated sink failure"))
+        } else {
+            Ok(())
+        }
+    }
+}
+
+impl flacenc::bitsink::BitSink for FailSink {
+    type Error = std::io::Error;
+    fn align_to_byte(&mut self) -> Result<usize, Self::Error> {
+        self.gate().map(|()| 0)
+    }
+    fn write_lsbs<T: flacenc::bitsink::Bits>(&mut self, _val: T, _n: usize) -> Result<(), Self::Error> {
+        self.gate()
+    }
+    fn write_msbs<T: flacenc::bitsink::Bits>(&mut self, _val: T, _n: usize) -> Result<(), Self::Error> {
+        self.gate()
+    }
+    fn write<T: flacenc::bitsink::Bits>(&mut self, _val: T) -> Result<(), Self::Error> {
+        self.gate()
+    }
+}
+
 fn framewise(w: &Workload, src: &mut SimSource) -> Result<Stream, EncodeError> {
     use flacenc::source::Source;
     let cfg = w.cfg.build(false, None, w.config_block());
@@ -159,6 +192,16 @@ fn body() {
         let pcfg = pre.w.cfg.build(pre.par, pre.w.workers, pre.w.config_block());
         if let Ok(st) = flacenc::encode_with_fixed_block_size(&pcfg, &mut psrc, pre.w.block) {
             let _ = stream_bytes(&st);
+            if let Some(pm) = pre.failed_write {
+                // ... and a write of it that fails half-way (a full disk, a closed pipe) on this thread
+                let mut counting = FailSink { ops: 0, fail_at: usize::MAX };
+                let _ = st.write(&mut counting);
+                let mut failing = FailSink {
+                    ops: 0,
+                    fail_at: counting.ops * pm as usize / 1000,
+                };
+                let _ = st.write(&mut failing);
+            }
         }
         if pre.last_single {
             mode = Mode::Single;
